@@ -15,6 +15,7 @@ func init() {
 			{"getClient", f, "upstream.getClient"},
 			{"createClient", f, "upstream.createClient"},
 			{"removeClient", f, "upstream.removeClient"},
+			{"newClient", f, "newClient"},
 			{"makeRequest", f, "upstream.MakeRequest"},
 			{"makeRequestToHost", f, "upstream.MakeRequestToHost"},
 			{"chooseHost", f, "upstream.chooseHost"},
